@@ -16,10 +16,11 @@ from .core import Ctx, Explorer, Obligation, PathEnd, PyBreak, PyContinue, PyRai
 from .interp import Interp
 from .model import Env, Heap, PyObj
 from .stmts import StmtMixin
+from .dictiter import DictIterMixin
 from .sym import NONE, TInt, TNone, TOpt, TRef, Unsupported, V
 
 
-class Machine(Interp, StmtMixin, CallMixin, CompMixin):
+class Machine(Interp, StmtMixin, CallMixin, CompMixin, DictIterMixin):
     pass
 
 
@@ -110,18 +111,23 @@ def _run_path(m: Machine, ctx: Ctx, module, cls, fnode, contract, key, res, case
             m.refs.append(v.t)
         loc[p.arg] = v
         model_vars[p.arg] = v
+    for gp, gty in contract.ghost_params.items():
+        # ghost parameter: an arbitrary value (universally quantified); callers supply it through ghost_args
+        ty = m.types.parse_str(gty, module)
+        loc[gp] = V(ty, z3.Const("garg_" + gp, sym.sort_of(ty)))
     if len(ref_terms) > 1:
         ctx.assume(z3.Distinct(*ref_terms))  # assumption A2
         m.assumptions_used.add("A2: object parameters are pairwise distinct")
     env = Env(loc, module, cls, fnode)
     env.contract = contract
     env.fname = key
-    env.local_types = {}
+    env.local_types = {n: m.types.parse_str(t, module) for n, t in contract.local_types.items()}
     from .stmts import resolve_anchors
 
     env.anchors, missing = resolve_anchors(fnode, contract)
     if missing:
         raise Unsupported("contract anchors not found in the current source: %s" % missing)
+    m.top_contract, m.top_env = contract, env
     env.old = Env(dict(loc), module, cls, fnode)
     env.old_heap = m.heap.copy()
     env.old.old, env.old.old_heap = env.old, env.old_heap
@@ -177,6 +183,28 @@ def _run_path(m: Machine, ctx: Ctx, module, cls, fnode, contract, key, res, case
         if msg not in res.errors:
             res.errors.append(msg)
         return
+    # ---- frame check (opt-in): writes must be covered by `modifies`
+    if contract.check_frame:
+        allowed, opaque_ok = set(), False
+        for loc_ in contract.modifies:
+            if loc_ == "<opaque>":
+                opaque_ok = True
+                continue
+            k_ = m.loc_key(loc_, env.old)
+            if k_ is not None:
+                allowed.add(k_)
+        fresh_ = getattr(m, "new_refs", [])
+        self_t = loc["self"].t if (is_init and "self" in loc) else None
+        for key_, ref_ in m.heap.dirty:
+            if key_ in allowed:
+                continue
+            if opaque_ok and (key_ == ("<opaque>", "*") or key_ not in getattr(m, "_opaque_keep", set())):
+                continue
+            if ref_ is not None and (any(ref_.eq(r) for r in fresh_) or (self_t is not None and ref_.eq(self_t))):
+                continue
+            msg = "frame: %s writes %s.%s, which is not in its modifies clause" % (key, key_[0], key_[1])
+            if msg not in res.errors:
+                res.errors.append(msg)
     # ---- exit obligations
     if contract.frame:
         _frame_obligations(m, ctx, contract, key, env, model_vars)
